@@ -1,7 +1,11 @@
 (* USES cosim *)
 (* C03 driver.
    "prog <P> <me> <doall 0|1> <target> | events"  -> token-mode co-simulation of the per-rank program
-   "tree <P>"                                     -> the symbolic result of the global model *)
+   "tree <P>"                                     -> the symbolic result of the global model
+   "hist <P> <me> <doall> <target> <doall> <target> ... | events"
+                                                  -> token-mode co-simulation of the whole rank trace of a SEQUENCE of calls
+                                                     against the history program hist_prog (C03/ReduceHist.v); the buffer of
+                                                     rank r in call j is the leaf 65536 * j + r *)
 let one = z_of_int 1
 let () = iter_lines (fun line ->
   if String.trim line = "" then () else
@@ -11,6 +15,11 @@ let () = iter_lines (fun line ->
     let p = z_of_hex p and me = z_of_hex me and target = z_of_hex target in
     let m = Z.add (w_sc_log2_32 (Z.sub p one)) one in
     let prog = reduce_prog p m (doall = "1") target me in
+    print_endline (cosim ~token:true prog evs)
+  | "hist" :: p :: me :: rest ->
+    let p = z_of_hex p and me = z_of_hex me in
+    let rec pairs l = (match l with da :: t :: r -> (da = "1", z_of_hex t) :: pairs r | _ -> []) in
+    let prog = hist_prog p me (hist_calls Z0 (pairs rest)) [] in
     print_endline (cosim ~token:true prog evs)
   | ["tree"; p] -> print_endline (string_of_pl (sym_reduce_result (z_of_hex p)))
   | _ -> print_endline "BAD_PARAMS")
